@@ -17,7 +17,7 @@ os.environ.setdefault("PYTHONDONTWRITEBYTECODE", "1")
 
 from asv.__main__ import PROPS, load_rule_module  # noqa: E402
 from asv.loader import AnalysisError, Program  # noqa: E402
-from asv.report import Ctx, load_known, match_known  # noqa: E402
+from asv.report import Ctx, Undischarged, load_known, match_known  # noqa: E402
 
 
 def run_all(repo):
@@ -35,7 +35,10 @@ def run_all(repo):
         mod = load_rule_module(p)
         ctx = Ctx(p, prog, "quick")
         try:
-            mod.run(ctx)
+            try:
+                mod.run(ctx)
+            except Undischarged:
+                pass
         except AnalysisError as e:
             out[p] = [f"ANALYSIS-ERROR {e}"]
             continue
